@@ -947,6 +947,27 @@ impl SctpTransport {
         self.inner.send_dcep_open(dc).await
     }
 
+    /// A pre-negotiated channel needs no DCEP exchange: when it is created on an
+    /// association that is already established nothing else would ever announce
+    /// it, so it is Open at once.  (Channels that exist before the association
+    /// comes up are announced when it does.)
+    pub fn announce_negotiated_channel(&self, dc: &DataChannel) {
+        if dc.negotiated
+            && *self.inner.state.lock() == SctpState::Connected
+            && dc
+                .state
+                .compare_exchange(
+                    DataChannelState::Connecting as usize,
+                    DataChannelState::Open as usize,
+                    Ordering::SeqCst,
+                    Ordering::SeqCst,
+                )
+                .is_ok()
+        {
+            dc.send_event(DataChannelEvent::Open);
+        }
+    }
+
     pub async fn close_data_channel(&self, channel_id: u16) -> Result<()> {
         self.inner.close_data_channel(channel_id).await
     }
@@ -1911,9 +1932,20 @@ impl SctpInner {
 
         for dc in channels_to_process {
             if dc.negotiated {
-                dc.state
-                    .store(DataChannelState::Open as usize, Ordering::SeqCst);
-                dc.send_event(DataChannelEvent::Open);
+                // compare_exchange: a channel created while the association came up may
+                // already have been announced by announce_negotiated_channel().
+                if dc
+                    .state
+                    .compare_exchange(
+                        DataChannelState::Connecting as usize,
+                        DataChannelState::Open as usize,
+                        Ordering::SeqCst,
+                        Ordering::SeqCst,
+                    )
+                    .is_ok()
+                {
+                    dc.send_event(DataChannelEvent::Open);
+                }
             } else {
                 let state = dc.state.load(Ordering::SeqCst);
                 if state == DataChannelState::Connecting as usize
@@ -2358,9 +2390,20 @@ impl SctpInner {
 
         for dc in channels_to_process {
             if dc.negotiated {
-                dc.state
-                    .store(DataChannelState::Open as usize, Ordering::SeqCst);
-                dc.send_event(DataChannelEvent::Open);
+                // compare_exchange: a channel created while the association came up may
+                // already have been announced by announce_negotiated_channel().
+                if dc
+                    .state
+                    .compare_exchange(
+                        DataChannelState::Connecting as usize,
+                        DataChannelState::Open as usize,
+                        Ordering::SeqCst,
+                        Ordering::SeqCst,
+                    )
+                    .is_ok()
+                {
+                    dc.send_event(DataChannelEvent::Open);
+                }
             } else {
                 let state = dc.state.load(Ordering::SeqCst);
                 if state == DataChannelState::Connecting as usize
